@@ -19,6 +19,10 @@ Sub-checks
   server_mut        the server oracle on runs whose heartbeat modifies the simulation (mass transfer, momentum
                     conserving kick pair, add+remove) with two writes and a short wait between them; the state of
                     step boundary n is the state at the end of heartbeat n; client requests continuously.
+  server_sync_det   deterministic arrival for the same race: deferred-sync configurations whose synchronize() evaluates
+                    forces (WHFast with correctors, SABA cm/cl, MERCURIUS, EOS pmlf4/pmlf6/plf7_6_4); a no-op
+                    additional_forces callback issues the request from inside the exit-path synchronisation; it must
+                    not be answered before the callback returns, and the snapshot must be a recorded boundary.
   server_fd         the server thread must not touch descriptors of other threads: a client (100-300 requests of
                     several kinds) and a watcher thread own descriptors while the simulation integrates; an EBADF
                     on one of them means another thread closed it.
@@ -816,6 +820,12 @@ def run_server(case, ctx):
         if mut and twin[0].steps_done > 0:
             mutate(twin[0], mut, lambda: None)
     U.heartbeat = ulimit            # counts steps (and applies the same updates as the served run's heartbeat)
+    det = case.get("det")
+
+    def no_force(simp):
+        pass
+    if det:
+        U.additional_forces = no_force      # same code path as the served run, whose callback adds no force either
     U.integrate(tmax, exact_finish_time=eft)
     if ucount[0] > 4 * case["nsteps"] + 50:
         ctx.skip("adaptive step size collapsed in the unserved twin (run does not end in bounded work)")
@@ -880,6 +890,34 @@ def run_server(case, ctx):
             for _ in range(burst):
                 get()
 
+    # deterministic arrival: the force callback (invoked by the force evaluations of synchronize()) issues the
+    # request from inside the exit-path synchronisation and waits a moment for the answer.  Every force evaluation
+    # of integrate() happens inside a critical section (a step, or the exit-path synchronisation), so an answer
+    # that arrives before the callback returns was produced while the state was being modified.
+    fired = set()
+    helpers = []
+    early = []
+
+    def force_cb(simp):
+        st_ = S_._status
+        which = None
+        if st_ == -2 and det in ("last_step_sync", "both"):
+            which = "last_step_sync"        # REB_STATUS_LAST_STEP is set right before that synchronisation
+        elif st_ >= 0 and det in ("final_sync", "both"):
+            which = "final_sync"            # the loop has ended: only the final synchronisation evaluates forces
+        if which is None or which in fired:
+            return
+        fired.add(which)
+        n0 = len(responses)
+        h = threading.Thread(target=get)
+        helpers.append(h)
+        h.start()
+        h.join(0.12)
+        if not h.is_alive() and len(responses) > n0 and responses[-1] is not None:
+            early.append(which)
+
+    if det:
+        S_.additional_forces = force_cb
     th = threading.Thread(target=client)
     th.start()
     try:
@@ -891,11 +929,19 @@ def run_server(case, ctx):
     finally:
         stop.set()
         th.join()
+        for h in helpers:
+            h.join()
         get()                                               # one more after the end
         S_.stop_server()
     if stray:
         raise Violation("while the server handled requests a file descriptor owned by another thread of the process "
                         "was closed (%s)" % stray[0], n=len(stray))
+    for w in fired:
+        ctx.cls("fired:" + w)
+    if early:
+        raise Violation("a request issued from inside the %s of integrate() (force evaluation of synchronize()) was "
+                        "answered before that force evaluation returned: the simulation was serialised while it was "
+                        "being synchronised" % early[0], which=early)
     final_stream = rb.stream(S_)
     log_final = (rb.dbits(S_.t), S_.steps_done)
     mS, pS = sa_format.stream_map(final_stream), rb.pstate(S_)
@@ -910,6 +956,8 @@ def run_server(case, ctx):
         try:
             U2 = build_sim(prog)
             twin[0] = U2
+            if det:
+                U2.additional_forces = no_force
             U2.heartbeat = ulimit
             U2.integrate(tmax, exact_finish_time=eft)
             U2.usleep = case["usleep"]
@@ -995,7 +1043,7 @@ def run_server(case, ctx):
     ctx.cls("eft%d" % eft)
     if mut:
         ctx.cls("mutate:" + mut["kind"])
-    ctx.nontrivial(inside >= 1)
+    ctx.nontrivial(bool(fired) if det else inside >= 1)
 
 
 def _unsafe(cfg):
@@ -1014,6 +1062,35 @@ server_sync_case = st.fixed_dictionaries({
     "nsteps": st.integers(2, 5), "eft": st.sampled_from([0, 1]), "usleep": st.sampled_from([0, 100]),
     "hammer": st.integers(0, 4), "requests": st.just([]),
 }).map(lambda c: dict(c, hammer=c["hammer"] + 1))
+
+
+def _det_cfgs():
+    """deferred-synchronisation configurations whose synchronize() evaluates forces (and therefore calls the
+    additional_forces callback from inside the exit-path synchronisation)"""
+    out = []
+    for c, k, co, c2 in S.whfast_lattice():
+        if co or c2:
+            out.append({"integrator": "whfast", "family": "whfast", "fixed_step": True,
+                        "set": [["ri_whfast.coordinates", c], ["ri_whfast.kernel", k], ["ri_whfast.corrector", co],
+                                ["ri_whfast.corrector2", c2], ["ri_whfast.safe_mode", 0]]})
+    wh = list(out)
+    sa = [{"integrator": "saba", "family": "saba", "fixed_step": True,
+           "set": [["ri_saba.type", t], ["ri_saba.safe_mode", 0]]} for t in S.SABA_TYPES if t[:2] in ("cm", "cl")]
+    me = [{"integrator": "mercurius", "family": "mercurius", "fixed_step": True,
+           "set": [["ri_mercurius.L", L], ["ri_mercurius.safe_mode", 0]]} for L in S.MERCURIUS_L]
+    eo = [{"integrator": "eos", "family": "eos", "fixed_step": True,
+           "set": [["ri_eos.phi0", p0], ["ri_eos.phi1", p1], ["ri_eos.n", n], ["ri_eos.safe_mode", 0]]}
+          for p0 in ("pmlf4", "pmlf6", "plf7_6_4") for p1 in S.EOS_TYPES for n in (1, 2)]
+    return wh, sa, me, eo
+
+
+server_det_case = st.fixed_dictionaries({
+    "system": S.hierarchical_system(nmin=2, nmax=4),
+    "cfg": st.one_of(*[st.sampled_from(x) for x in _det_cfgs()]),
+    "dt_frac": st.sampled_from([0.05, 0.02]), "rand_seed": st.just(1),
+    "nsteps": st.integers(3, 8), "eft": st.sampled_from([0, 1, 1]), "usleep": st.just(0),
+    "det": st.sampled_from(["last_step_sync", "final_sync", "both"]), "requests": st.just([]),
+})
 
 
 server_fd_case = st.fixed_dictionaries({
@@ -1113,6 +1190,7 @@ def subs(tier):
             shards_thorough=8),
         Sub("server", run_server, strategy=server_case, quick=320, thorough=4000, shards_quick=8),
         Sub("server_mut", run_server, strategy=server_mut_case, quick=64, thorough=1200, shards_quick=8),
+        Sub("server_sync_det", run_server, strategy=server_det_case, quick=48, thorough=800, shards_quick=8),
         Sub("server_fd", run_server_fd, strategy=server_fd_case, quick=64, thorough=1200, shards_quick=8),
         Sub("server_sync", run_server, strategy=server_sync_case, quick=40, thorough=600, shards_quick=8),
     ]
